@@ -18,6 +18,9 @@ def _close(a, b, exact):
 def c03_violations(spec, record, exact=True, sup_done=None, max_err=6):
     """I1-I4. Returns list of (signature, detail)."""
     v = []
+    from vf.probes import node_ids
+
+    ids = node_ids(spec)
 
     def err(sig, *d):
         if len(v) < max_err:
@@ -134,6 +137,9 @@ def c03_violations(spec, record, exact=True, sup_done=None, max_err=6):
                             err("I4:window-ts", n, o, k, w["ts_recv"][k], [ms["ts_recv"][jj] for jj in got_idx])
                         elif "out_h" in po and ms["seq_out"][j] < len(po["out_h"]) and w["data_h"][k][pad + x] != po["out_h"][ms["seq_out"][j]]:
                             err("I4:window-payload", n, o, k, w["data_h"][k][pad + x], po["out_h"][ms["seq_out"][j]])
+                        elif "data_tag" in w and list(w["data_tag"][k][pad + x][::2]) != [ids[o], ms["seq_out"][j]]:
+                            # every leaf of the payload belongs to that message: (producer id, ., seq) of the tag leaf
+                            err("I4:window-payload-leaf", n, o, k, w["data_tag"][k][pad + x], [ids[o], "eps", ms["seq_out"][j]])
                     if bad:
                         err("I4:window-content", n, o, k, seqs, [ms["seq_out"][j] for j in got_idx])
                         break
